@@ -186,12 +186,21 @@ fn declarations_canon(text: &str) -> Option<(String, BTreeSet<(String, String)>,
 fn check_edits(what0: &str, mods: &[(String, String)], doc_name: &str, doc: &str, target: &str, exporters: &[String], named_module: Option<&str>, edits: &[(Location, String)], fails: &mut Vec<(String, String)>) {
   // shape class of the document for signatures: does the last existing import line end its
   // statement with `;` (the inserted import is placed right after it)?
-  let last_import = doc.lines().filter(|l| l.trim_start().starts_with("import ")).last();
-  let shape = match last_import {
+  // (decided on tokens, not on lines: a comment or the next declaration may share the line)
+  let toks: Vec<vcore::toks::Tok> = vcore::toks::lex(doc).into_iter().filter(|t| !matches!(t.kind, vcore::toks::TokKind::LineComment | vcore::toks::TokKind::BlockComment | vcore::toks::TokKind::DocComment)).collect();
+  let shape = match toks.iter().rposition(|t| t.text == "import") {
     None => "no-imports",
-    Some(l) => {
-      let code = l.split("//").next().unwrap_or(l).trim_end();
-      if code.ends_with(';') { "last-import-ends-with-semicolon" } else { "last-import-without-semicolon" }
+    Some(i) => {
+      // import { .. } from a.b.c [;]
+      let mut j = i;
+      while j < toks.len() && toks[j].text != "from" {
+        j += 1;
+      }
+      j += 1; // first part of the module path
+      while j + 2 < toks.len() && toks[j + 1].text == "." {
+        j += 2;
+      }
+      if toks.get(j + 1).map(|t| t.text == ";").unwrap_or(false) { "last-import-ends-with-semicolon" } else { "last-import-without-semicolon" }
     }
   };
   let what_owned = format!("{what0}:{shape}");
